@@ -580,7 +580,7 @@ func pgRefHPDecode(c []byte) (nib []byte, term bool, ok bool) {
 
 // pgRefWalk walks the hash chain from root along key through lookup and returns
 // the value stored for key (nil if the nodes prove absence) and how the walk ended:
-// "found", "leaf-mismatch", "ext-mismatch", "nil-slot", "branch-value-empty".
+// "found", "found-branch-value", "leaf-mismatch", "ext-mismatch", "nil-slot", "branch-value-empty".
 func pgRefWalk(root [32]byte, key []byte, lookup func(h [32]byte) []byte) ([]byte, string, error) {
 	var nib []byte
 	for _, b := range key {
@@ -627,7 +627,7 @@ func pgRefWalk(root [32]byte, key []byte, lookup func(h [32]byte) []byte) ([]byt
 				if it.List[16].IsList || len(it.List[16].Str) == 0 {
 					return nil, "branch-value-empty", nil
 				}
-				return it.List[16].Str, "found", nil
+				return it.List[16].Str, "found-branch-value", nil
 			}
 			child = it.List[nib[0]]
 			nib = nib[1:]
